@@ -5,7 +5,7 @@ import t2t, gen, impl, corr
 OBLIGATIONS = [
     'Yalafi.C01_getTxtPos_length', 'Yalafi.C01_getTxtPos_range', 'Yalafi.C01_scan_inRange',
     'Yalafi.C01_latexError_inRange', 'Yalafi.C01_removeLines_inRange', 'Yalafi.C01_ml_parts',
-    'Yalafi.C01_substitute_positions', 'Yalafi.C01_pipeline_partial',
+    'Yalafi.C01_substitute_positions', 'Yalafi.C01_pipeline_partial', 'Yalafi.C01_tex2txt', 'Yalafi.C01_tex2txt_current',
 ]
 
 def judge(case, res):
@@ -48,6 +48,7 @@ def run(ctx):
         if len(ctx.samples) < 4 and c['kind'] == 'doc':
             ctx.sample({'src': c['src'][:300], 'opts': c.get('opts'), 'multi': c.get('multi')})
     corr.leaf_corr(ctx, cases, results, limit=ctx.scale(300, 3000))
+    corr.t2t(ctx, cases, results, limit=ctx.scale(2500, 40000))
     cli(ctx)
 
 def cli(ctx):
